@@ -19,7 +19,13 @@ theorem bstep_a (hI : Inv false s) (hB : BInv s) (hph : BodyPhase s) (h1 : s.mod
   have hk1 : Keeps s.tree (s.tree.adoptionAgency c .a) := keeps_adoptionAgency c hAT .a (by decide)
   have hok1 : TreeOk (PNoCol false) (s.tree.adoptionAgency c .a) := by (tree_ok)
   have hok3 : TreeOk (PNoCol false) (((s.tree.adoptionAgency c .a).removeFromAfe e).removeFromStack e) := by (tree_ok)
-  refine bstep_filter hB hph h1 h2 e hen ?_ ⟨rfl, rfl⟩ (Or.inl rfl) (Or.inl rfl)
+  refine bstep_filter hB hph h1 h2 e hen ?_ ⟨rfl, rfl⟩ (Or.inl rfl) (Or.inl rfl) ?_
+  rotate_left 1
+  · intro _ hS
+    have hT : TreeOk PNoSel s.tree := ⟨hS, hI.tree.afe⟩
+    have : TreeOk PNoSel (((((s.tree.adoptionAgency c .a).removeFromAfe e).removeFromStack e).reconstructAfe).insertFormatting .a a) := by
+      sel_ok
+    exact this.stack
   show anchorSuffix (((((s.tree.adoptionAgency c .a).removeFromAfe e).removeFromStack e).reconstructAfe).insertFormatting .a a).stack = _
   rw [(keeps_insertFormatting _ .a a (by decide) : Keeps _ _), (keeps_reconstructAfe hok3.afe : Keeps _ _)]
   show anchorSuffix ((s.tree.adoptionAgency c .a).stack.filter (· != e)) = _
